@@ -19,6 +19,7 @@ import (
 	"net/url"
 	"os"
 	"reflect"
+	"regexp"
 	"sort"
 	"strings"
 	"testing"
@@ -349,6 +350,28 @@ func touchAllInstance(t *rapid.T, s *jv.V, depth int) *jv.V {
 			}
 		}
 	}
+	if pp := s.Get("patternProperties"); pp != nil && pp.K == jv.Obj && len(pp.O) >= 2 {
+		// names that some, but not all, of the patterns match (and one that all of them match)
+		var res []*regexp.Regexp
+		for _, e := range pp.O {
+			if re, err := regexp.Compile(e.K); err == nil {
+				res = append(res, re)
+			}
+		}
+		partial := 0
+		for _, cand := range []string{"a", "b", "ab", "ac", "abc", "ba", "c", "1", "a1", "\u00e9", "", "xy", "aa", "abab"} {
+			k := 0
+			for _, re := range res {
+				if re.MatchString(cand) {
+					k++
+				}
+			}
+			if k > 0 && k < len(res) && partial < 3 {
+				add(cand)
+				partial++
+			}
+		}
+	}
 	if len(names) == 0 {
 		return small()
 	}
@@ -436,7 +459,7 @@ func TestC14(t *testing.T) {
 			if rapid.IntRange(0, 3).Draw(t, "d7") == 0 {
 				d = refmodel.D7
 			}
-			lens := rapid.SampledFrom([]sgen.Lens{sgen.LensObject, sgen.LensObject, sgen.LensUneval, sgen.LensAny, sgen.LensArray, sgen.LensString}).Draw(t, "lens")
+			lens := rapid.SampledFrom([]sgen.Lens{sgen.LensObject, sgen.LensObject, sgen.LensObject, sgen.LensUneval, sgen.LensUneval, sgen.LensAny, sgen.LensArray, sgen.LensString}).Draw(t, "lens")
 			c.Doc = sgen.Draw(t, sgen.Opts{Draft: d, MaxDepth: 3, Lens: lens})
 			c.Instances = sgen.Instances(t, c.Doc, 3)
 			if multiEntryMaps(c.Doc) > 0 {
